@@ -66,6 +66,7 @@ class Unit:
     desc_by_line: dict = field(default_factory=dict)   # {"<file basename>:<line>": description} for contract clauses generated one per line
     stub_builtins: bool = False     # also give libc string/heap functions nondet bodies (data fully abstracted)
     stubbed_contracts: list = field(default_factory=list)  # callees replaced by a generated contract stub (reporting)
+    unwind_assert: bool = True      # False only for kind == "bounded": loops cut at the stated bound without unwinding assertions
     internal_is_property: bool = False  # loop invariants generated from the property itself count as property-level (E2)
     link_objs: list = field(default_factory=list)      # [(goto binary, [function bodies to drop from it first])] linked in after remove_bodies
     prop_filter: dict = field(default_factory=dict)    # {property id: regex}: which obligations of this unit belong to which property
@@ -305,7 +306,7 @@ def build(u: Unit, r: UnitResult, d: str, cover: bool):
         cur = nx2 if rc == 0 else cur
     # 4. contract instrumentation
     if not u.no_dfcc:
-        cmd = ["goto-instrument", "--dfcc", u.entry]
+        cmd = ["goto-instrument", "--no-malloc-may-fail", "--dfcc", u.entry]
         for f in u.enforce:
             cmd += ["--enforce-contract", f]
         for f in u.replace:
@@ -329,13 +330,14 @@ def build(u: Unit, r: UnitResult, d: str, cover: bool):
 
 
 def cbmc_cmd(u, gb):
-    cb = ["cbmc", gb, "--object-bits", str(u.object_bits), "--json-ui", "--verbosity", "6"]
+    # --no-malloc-may-fail: libbidib never checks malloc results; out-of-memory is outside every property (assumption)
+    cb = ["cbmc", gb, "--object-bits", str(u.object_bits), "--json-ui", "--verbosity", "6", "--no-malloc-may-fail"]
     if u.no_dfcc:
         cb += ["--function", u.entry]
     if not u.std_checks:
         cb += ["--no-standard-checks"]
     if u.unwindset:
-        cb += ["--unwindset", ",".join("%s:%d" % kv for kv in u.unwindset.items()), "--unwinding-assertions"]
+        cb += ["--unwindset", ",".join("%s:%d" % kv for kv in u.unwindset.items())] + (["--unwinding-assertions"] if u.unwind_assert else [])
     cb += solver_flags(u.solver) + u.extra_flags
     return cb
 
